@@ -215,6 +215,49 @@ func c15Run(c lib.Case, env *lib.Env) lib.Result {
 			break
 		}
 	}
+	// two independent diffs running at the same time in this process (different pairs, pools and sinks) must not
+	// influence each other: same bytes as when they run alone
+	if firstPatch != nil && s.Shape != "bigfresh" {
+		other := c15Pair(lib.Mix(s.PairSeed, 77), "generic")
+		o2, n2 := filepath.Join(env.Scratch, "old2"), filepath.Join(env.Scratch, "new2")
+		other.Old.Materialize(o2)
+		other.New.Materialize(n2)
+		var refP, refS bytes.Buffer
+		if _, err := lib.DiffDirs(o2, n2, s.Comp, nil, &refP, &refS); err == nil {
+			type out struct{ p, s *yieldWriter }
+			outs := []out{{&yieldWriter{rng: lib.NewRng(1)}, &yieldWriter{rng: lib.NewRng(2)}}, {&yieldWriter{rng: lib.NewRng(3)}, &yieldWriter{rng: lib.NewRng(4)}}}
+			runtime.GOMAXPROCS(4)
+			var wg sync.WaitGroup
+			errs := make([]error, 2)
+			hv := lib.RunWithQuiescence(func() {
+				for k, dirs := range [][2]string{{oldDir, newDir}, {o2, n2}} {
+					wg.Add(1)
+					go func(k int, od, nd string) {
+						defer wg.Done()
+						_, errs[k] = lib.DiffDirs(od, nd, s.Comp, func(p lake.Pool) lake.Pool {
+							return &lib.ShortReadPool{Inner: p, Rng: lib.NewRng(lib.Mix(s.PairSeed, 153, uint64(k))), Yield: true}
+						}, outs[k].p, outs[k].s)
+					}(k, dirs[0], dirs[1])
+				}
+				wg.Wait()
+			}, 120*time.Second)
+			if !hv.Returned {
+				res.Violate("concurrent-diffs-do-not-return", desc, hv.Report)
+				return res
+			}
+			res.Add("concurrent_diff_pairs", 1)
+			if errs[0] != nil || errs[1] != nil {
+				res.Violate("concurrent-diff-error", desc, fmt.Sprint(errs))
+			} else {
+				if !bytes.Equal(outs[0].p.buf.Bytes(), firstPatch) || !bytes.Equal(outs[1].p.buf.Bytes(), refP.Bytes()) {
+					res.Violate("patch-bytes-differ-when-diffs-run-concurrently", desc, "a diff running next to another one wrote different patch bytes than when running alone")
+				}
+				if !bytes.Equal(outs[0].s.buf.Bytes(), firstSig) || !bytes.Equal(outs[1].s.buf.Bytes(), refS.Bytes()) {
+					res.Violate("signature-bytes-differ-when-diffs-run-concurrently", desc, "a diff running next to another one wrote different signature bytes than when running alone")
+				}
+			}
+		}
+	}
 	// optimizer determinism for fixed parameters (bsdiff hooks perturb workers, dispatcher and collector)
 	if firstPatch != nil && s.Shape != "bigfresh" {
 		for _, op := range []lib.OptParams{{Partitions: 2}, {Partitions: 5, ForceMapAll: true}, {Partitions: 0, SSC: 4}} {
